@@ -421,11 +421,21 @@ func Dial(network, address string) (Conn, error) {
 	mu.Unlock()
 	return DialHook(network, address)
 }
-func DialTCP(network string, laddr, raddr *TCPAddr) (Conn, error) {
+// DialTCP has the signature of the real one: a *TCPConn, which is a nil POINTER when the dial
+// fails (stored in a Conn interface it is not a nil interface).
+func DialTCP(network string, laddr, raddr *TCPAddr) (*TCPConn, error) {
+	if raddr == nil {
+		return nil, errors.New("dial tcp: missing address")
+	}
 	mu.Lock()
 	Dials[raddr.String()]++
 	mu.Unlock()
-	return DialHook(network, raddr.String())
+	c, err := DialHook(network, raddr.String())
+	if err != nil {
+		return nil, err
+	}
+	tc, _ := c.(*TCPConn)
+	return tc, nil
 }
 func DialTimeout(network, address string, d time.Duration) (Conn, error) {
 	return Dial(network, address)
